@@ -221,6 +221,36 @@ func GenBase(r *rand.Rand, big bool) Input {
 			}
 			in.Stores = append(in.Stores, st)
 		}
+		// a schedule for the receiver goroutines (2/5 of the cases): round robin, one store after
+		// the other, reverse, or random
+		if r.Intn(5) < 2 && len(in.Stores) > 0 {
+			total := len(in.Stores)
+			for _, st := range in.Stores {
+				total += len(st.Frames)
+			}
+			n := len(in.Stores)
+			switch r.Intn(4) {
+			case 0:
+				for k := 0; k < total*n; k++ {
+					in.Sched = append(in.Sched, k%n)
+				}
+			case 1:
+				perm := r.Perm(n)
+				for _, i := range perm {
+					for k := 0; k <= len(in.Stores[i].Frames); k++ {
+						in.Sched = append(in.Sched, i)
+					}
+				}
+			case 2:
+				for k := 0; k < total*n; k++ {
+					in.Sched = append(in.Sched, n-1-k%n)
+				}
+			default:
+				for k := 0; k < 2*total; k++ {
+					in.Sched = append(in.Sched, r.Intn(n))
+				}
+			}
+		}
 		return in
 	}
 }
